@@ -297,6 +297,24 @@ fn run_single_program(
             Ok(fds) => fds_stdin = Some(fds),
             Err(e) => {
                 println_stderr!("cicada: pipeline4: {}", e);
+                // the stage is not started: give up the pipe ends it was
+                // going to hand to its child, like the parent does below.
+                if idx_cmd < pipes_count {
+                    libs::close(pipes[idx_cmd].1);
+                }
+                if idx_cmd > 0 {
+                    libs::close(pipes[idx_cmd - 1].0);
+                }
+                if idx_cmd == pipes_count {
+                    if let Some(fds) = fds_capture_stdout {
+                        libs::close(fds.0);
+                        libs::close(fds.1);
+                    }
+                    if let Some(fds) = fds_capture_stderr {
+                        libs::close(fds.0);
+                        libs::close(fds.1);
+                    }
+                }
                 return 1;
             }
         }
@@ -628,6 +646,27 @@ fn run_single_program(
 
         Err(_) => {
             println_stderr!("Fork failed");
+            // no child: give up the descriptors it was going to get
+            if idx_cmd < pipes_count {
+                libs::close(pipes[idx_cmd].1);
+            }
+            if idx_cmd > 0 {
+                libs::close(pipes[idx_cmd - 1].0);
+            }
+            if idx_cmd == pipes_count {
+                if let Some(fds) = fds_capture_stdout {
+                    libs::close(fds.0);
+                    libs::close(fds.1);
+                }
+                if let Some(fds) = fds_capture_stderr {
+                    libs::close(fds.0);
+                    libs::close(fds.1);
+                }
+            }
+            if let Some(fds) = fds_stdin {
+                libs::close(fds.0);
+                libs::close(fds.1);
+            }
             *cmd_result = CommandResult::error();
             0
         }
